@@ -491,8 +491,11 @@ fn instantiate_branch_condition_result_var_declarations_and_matched_or_variant_i
                         // No variable declarations in OR variants.
                         // This also means we don't have tuples because they are created only to extract variables.
                         // In this case we only have to calculate the final condition.
+                        // A variant without a condition always matches (e.g. `_`), and then so does the whole OR.
+                        let has_irrefutable_variant = conditions.iter().any(|c| c.is_none());
                         let conditions = conditions.into_iter().flatten().collect_vec();
                         let condition = match conditions[..] {
+                            _ if has_irrefutable_variant => None,
                             [] => None,
                             _ => Some(build_condition_expression(&conditions[..], &|lhs, rhs| {
                                 instantiate.lazy_or(lhs, rhs)
